@@ -163,6 +163,9 @@ fn main() {
     let mut reports: Vec<Report> = vec![];
     let mut tool_errors: Vec<String> = vec![];
     for (k, scn) in scns.iter().enumerate() {
+        if std::env::var("SYMX_STOP_ON_VIOLATION").is_ok() && reports.iter().any(|r| !r.findings.is_empty()) {
+            break;
+        }
         // remaining budget split evenly over the remaining scenarios
         let left = budget.saturating_sub(start.elapsed().as_secs());
         // a scenario may use up to three times its fair share of what is left (at least 20 s)
